@@ -77,9 +77,15 @@ impl Ctx {
         Some(f(&mut t))
     }
     fn node(&self, id: usize) -> Incr<Val> {
-        self.with(|t| t.nodes[id - 1].clone())
-            .flatten()
-            .unwrap_or_else(|| panic!("harness: no handle for node {id}"))
+        self.with(|t| {
+            t.nodes
+                .get(id - 1)
+                .cloned()
+                .flatten()
+                .or_else(|| t.leaked.iter().find(|n| n.verif_index() == id).cloned())
+        })
+        .flatten()
+        .unwrap_or_else(|| panic!("harness: no handle for node {id}"))
     }
     fn next_id(&self) -> usize {
         self.ws.upgrade().map_or(0, |s| s.verif_num_nodes() + 1)
